@@ -22,8 +22,10 @@ def _c01_runs(tier, seed, replay):
                 ["log", "--seed", S(seed, 1), "--n", "120", "--maxops", "30"],
                 ["log", "--seed", S(seed, 2), "--n", "120", "--maxops", "30"],
                 ["log", "--seed", S(seed, 3), "--n", "30", "--maxops", "60", "--big", "1"],
-                ["log", "--kind", "large", "--seed", S(seed, 4), "--n", "2"]]
+                ["log", "--kind", "large", "--seed", S(seed, 4), "--n", "2"],
+                ["log", "--kind", "words", "--seed", S(seed, 5), "--n", "40"]]
     return ([["log", "--kind", "exhaustive", "--depth", "4", "--n", "100000"]]
+            + [["log", "--kind", "words", "--seed", S(seed, 60 + i), "--n", "300"] for i in range(2)]
             + [["log", "--seed", S(seed, 10 + i), "--n", "250", "--maxops", "40"] for i in range(12)]
             + [["log", "--seed", S(seed, 30 + i), "--n", "40", "--maxops", "120", "--big", "1"] for i in range(4)]
             + [["log", "--kind", "large", "--seed", S(seed, 40 + i), "--n", "4"] for i in range(4)])
@@ -54,8 +56,12 @@ def _c08_runs(tier, seed, replay):
         return [["log", "--kind", "large", "--seed", S(seed, 1), "--n", "4"],
                 ["crash", "--kind", "large", "--seed", S(seed, 2), "--n", "1"],
                 ["log", "--seed", S(seed, 3), "--n", "150", "--maxops", "30"],
-                ["repl", "--seed", S(seed, 4), "--n", "40", "--maxlen", "70"]]
+                ["repl", "--seed", S(seed, 4), "--n", "40", "--maxlen", "70"],
+                ["repl", "--seed", S(seed, 5), "--n", "40", "--maxlen", "24"],
+                ["log", "--kind", "words", "--seed", S(seed, 6), "--n", "60"]]
     return ([["log", "--kind", "large", "--seed", S(seed, 10 + i), "--n", "4"] for i in range(6)]
+            + [["repl", "--seed", S(seed, 40 + i), "--n", "150", "--maxlen", "32"] for i in range(3)]
+            + [["log", "--kind", "words", "--seed", S(seed, 50 + i), "--n", "300"] for i in range(3)]
             + [["crash", "--kind", "large", "--seed", S(seed, 20 + i), "--n", "2"] for i in range(4)]
             + [["log", "--seed", S(seed, 30 + i), "--n", "300", "--maxops", "40"] for i in range(4)]
 )
@@ -117,7 +123,7 @@ def _c15_runs(tier, seed, replay):
 
 PROPS = {
     "C15": dict(
-        theorems=["HC.C15.mutex_linearizable", "HC.C15.sched_inv", "HC.C15.init_inv", "HC.C15.shape", "HC.C15.shape_covers"],
+        theorems=["HC.C15.mutex_linearizable", "HC.C15.sched_inv", "HC.C15.init_inv", "HC.C15.shape", "HC.C15.shape_covers", "HC.C15.shape_exclusive", "HC.C15.shape_exclusive_covers"],
         bridge_modules=[], bridging=[],
         runs=_c15_runs,
         partial="the theorem is about the lock discipline (acquire - body - release), for every deterministic step function and every schedule; the shape of each SharedCore method is re-extracted from the source on every run. What async-lock and the executor do at run time is outside the model: the run drives the real SharedCore under seeded-random schedules with a preemption at every storage operation.",
